@@ -1754,11 +1754,12 @@ class Engine:
             except KeyError:
                 raise PyRaise(TypeError('object is not subscriptable'))
             return self.call(f, [obj, key], {})
-        if isinstance(obj, SStr):
-            return self.guard(lambda: obj.getitem(key))
         h = self.getitem_handlers.get(type(obj))
         if h is not None:
+            # a handler for exactly this type (a model refining SStr too)
             return h(self, obj, key)
+        if isinstance(obj, SStr):
+            return self.guard(lambda: obj.getitem(key))
         if isinstance(obj, (dict, SymDict)):
             k = self.dict_find(obj, key)
             if k is _MISSING:
